@@ -109,6 +109,36 @@ theorem gen_search_eq (n i : Int) :
     NV.Gen.C11.searchStart n = n ∧ NV.Gen.C11.searchNext i = (i - 1, decide (i ≠ 0)) ∧
     NV.Gen.C11.searchMiss i = decide (i < 0) := ⟨rfl, rfl, rfl⟩
 
+/-- **entry of set_heart_beat**: the mask tested by its first statement is O_DESTRUCTED -/
+theorem gen_shbGuard_eq : NV.Gen.C11.shbGuardMask = NV.Gen.C11.oDestructed := rfl
+
+/-- **retune** (object already on the list): `if (to < 0) return 0;` then `(short)to` into both fields -/
+theorem gen_retuneStore_eq (to t i : Int) :
+    NV.Gen.C11.retuneStore to t i = (decide (to < 0), wrap16 to, wrap16 to) := rfl
+
+/-- **growth of the array**: first allocation HEART_BEAT_CHUNK, `num_hb_objs == max_heart_beats` adds a chunk -/
+theorem gen_growCap_eq (cap n : Nat) :
+    (NV.Gen.C11.growCap (cap : Int) (n : Int)).toNat = (if cap = 0 then chunk else if n = cap then cap + chunk else cap) := by
+  have hch : chunk = 32 := by decide
+  unfold NV.Gen.C11.growCap
+  rw [hch]
+  split
+  · rename_i h; have : cap = 0 := by omega
+    simp [this]
+  · rename_i h; have hc : ¬ (cap = 0) := by omega
+    rw [if_neg hc]
+    split
+    · rename_i h2; have : n = cap := by omega
+      rw [if_pos this]; omega
+    · rename_i h2; have : ¬ (n = cap) := by omega
+      rw [if_neg this]; omega
+
+/-- **save_context / restore_context** carry command_giver -/
+theorem gen_ctxSaveRestore_eq : NV.Gen.C11.ctxSaveRestore = [1, 1] := rfl
+
+/-- **heart_beats()** answers the list in reverse order -/
+theorem gen_heartBeatsReversed_eq : NV.Gen.C11.heartBeatsReversed = true := rfl
+
 theorem timerFlagHeartbeat_val : NV.Gen.C11.timerFlagHeartbeat = 2 := rfl
 
 /-- the guard of the round: `(MAIN_OPTION (timer_flags) & TIMER_FLAG_HEARTBEAT) && (num_hb_to_do > 0)` (after
@@ -230,7 +260,8 @@ def setHeartBeatRef (w : World) (ob : Nat) (to : Int) : World :=
 
 theorem setHeartBeat_eq_ref (w : World) (ob : Nat) (to : Int) : setHeartBeat w ob to = setHeartBeatRef w ob to := by
   unfold setHeartBeat setHeartBeatRef
-  simp only [gen_clampTo_eq, gen_rmCompensate_eq, gen_appendStore_eq, gen_trunc16_eq]
+  simp only [gen_clampTo_eq, gen_rmCompensate_eq, gen_appendStore_eq, gen_trunc16_eq, gen_retuneStore_eq, gen_growCap_eq,
+    decide_eq_true_eq]
   cases hidx : idxOf ob w.hbs with
   | none => rfl
   | some index =>
